@@ -305,7 +305,7 @@ func c02DispatchTable(p *Prog, fi *FuncInfo, readers ...string) ([]dispatchRow, 
 				}
 				switch x := e.(type) {
 				case *ast.UnaryExpr:
-					if x.Op == token.AND && strings.HasSuffix(types.ExprString(x.X), ".allStore") {
+					if x.Op == token.AND && strings.HasSuffix(types.ExprString(x.X), "."+allStoreField) {
 						return &Val{Tag: "all-store"}, true
 					}
 				case *ast.CallExpr:
